@@ -73,7 +73,7 @@ def parse_blocks(text):
         head = next((l for l in b if "ThreadSanitizer" in l), None)
         if head is None: continue
         body = "\n".join(b)
-        m = re.search(r"WARNING: ThreadSanitizer: ([^(\n]+?)\s*\(pid=", head)
+        m = re.search(r"WARNING: ThreadSanitizer: ([^(\n]+?)\s*\(pid=", body)
         if m:
             kind = m.group(1).strip().replace(" ", "-")
             secs = stacks_of(b)
@@ -88,7 +88,7 @@ def parse_blocks(text):
                 fn, r = innermost(secs[0][1]) if secs else ("?", False)
                 out.append(dict(kind=kind, key="tsan:%s:%s" % (kind, fn), text=body, harness_only=not r))
             continue
-        m = re.search(r"ERROR: ThreadSanitizer: (\S+)", head)
+        m = re.search(r"ERROR: ThreadSanitizer: (\S+)", body)   # "ThreadSanitizer:DEADLYSIGNAL" precedes this line
         if m:
             frames = []
             for l in b:
@@ -120,7 +120,7 @@ def check_fn(prop, cfg, tier, seed, ncases_override=None):
     for pname, opt in passes:
         logdir = os.path.join(logroot, pname); os.makedirs(logdir); logdirs.append((pname, logdir))
         env = {"TSAN_OPTIONS": tsan_options(logdir) + opt, "VF_TSAN_LOGDIR": logdir}
-        r = check.run_cases(prop, variant, n, tier, seed, timeout=cfg.get("timeout", 90), chunk=1, extra_args=cfg.get("args", ()), extra_env=env)
+        r = check.run_cases(prop, variant, n, tier, seed, timeout=cfg.get("timeout", 45), chunk=1, extra_args=cfg.get("args", ()), extra_env=env)
         for v in r.violations: v["pass"] = pname
         if res is None: res = r
         else:
@@ -234,7 +234,8 @@ def replay(rec):
             print("replay: case did not finish within 900 s"); return 1
         keys = set(b["key"] for b in parse_blocks(r.stderr))
         keys |= set(l.split(" ", 3)[2] for l in r.stdout.splitlines() if l.startswith("V "))
-        if r.returncode != 0 and not any(k.startswith("crash:") for k in keys): keys.add("crash:exit:%d" % r.returncode)
+        # 66 is the exit code of the sanitizer runtime for "reports were printed"
+        if r.returncode not in (0, 66) and not any(k.startswith("crash:") for k in keys): keys.add("crash:exit:%d" % r.returncode)
         if attempt == 0 or (want in keys and want not in seen):
             sys.stdout.write(r.stdout[-3000:]); sys.stdout.write(r.stderr[-5000:])
         seen |= keys
